@@ -73,7 +73,9 @@ def decodeCues (bs : Bytes) : Res (Cues × Bytes) :=
   if bs.length < 25 then .throw .invalid_argument else
   (do
     let n ← rd u64be
-    reserveChk (Prim.s64 n) 48
+    let rem ← remaining
+    -- every entry occupies at least 13 bytes: larger counts are rejected before `reserve`
+    if Prim.s64 n < 0 ∨ (rem / 13 : Int) < Prim.s64 n then throwC .invalid_argument else
     let cs ← forN decodeCue n.toNat
     let adj ← rd u64be
     let flag ← rd u8
@@ -105,7 +107,8 @@ def decodeLoops (bs : Bytes) : Res (Loops × Bytes) :=
   if bs.length < 8 then .throw .invalid_argument else
   (do
     let n ← rd u64le
-    reserveChk (Prim.s64 n) 56
+    let rem ← remaining
+    if Prim.s64 n < 0 ∨ (rem / 23 : Int) < Prim.s64 n then throwC .invalid_argument else
     let ls ← forN decodeLoop n.toNat
     let extra ← rest
     pure (ls, extra) : Cur (Loops × Bytes)) bs |>.bind (fun p => .ok p.1)
